@@ -97,6 +97,7 @@ class Session:
         self.counters = {}
         self.max_nodes = 0
         self.saw_clone = False
+        self.state_digests = []
 
     # ---------------------------------------------------------------- data
     def mkdata(self, rng=None):
@@ -577,6 +578,13 @@ class Session:
             if not nodes or any("walk failed" in e or "reachable twice" in e or "own ancestor" in e for e in errs):
                 return findings  # no usable node list: the other monitors cannot be evaluated
         self.max_nodes = max(self.max_nodes, len(nodes))
+        if len(self.state_digests) < 60:
+            def _sh(h):
+                return [(repr(c.data), repr(c.data_id), getattr(c, "kind", None), _sh(c)) for c in h.children]
+            try:
+                self.state_digests.append(_sh(self.tree))
+            except Exception:
+                pass
         e3 = wf.wf_siblings(self.tree, nodes)
         if e3:
             findings.append(Finding("C03:wf_siblings", "; ".join(e3[:3])))
@@ -900,6 +908,8 @@ def run_history(case, res, *, own_prop, extra_props=()):
             break
     for k, v in s.counters.items():
         res.count(k, v)
+    for d in s.state_digests:
+        res.observe("tree_states_after_a_step", d)
     res.count("steps", nsteps)
     for f in findings:
         if f.prop == own_prop or f.prop in extra_props:
